@@ -14,13 +14,15 @@
 //    parse_directives, parse_optional_arguments, parse_argument, parse_object_entry,
 //    parse_variable_definitions, parse_variable_definition, parse_optional_default_value,
 //    parse_delimited_list, parse_comma, parse_line_break, parse_comma_or_line_break,
-//    parse_up_to_three_dots; closure contracts are spliced with //@closure;
+//    parse_up_to_three_dots; description.rs: parse_optional_description,
+//    parse_single_line_description, parse_multiline_description, the slicing of
+//    clean_block_string_literal; closure contracts are spliced with //@closure;
 //  * the BLOCKS of four alternatives of parse_non_constant_value / parse_type_annotation
 //    (closures capturing `tokens` mutably are outside Verus), the integer-literal conversion;
 //  * the logos callbacks lex_string / lex_block_string.
 // Assumed (contract only): the logos-generated lexer; the composition glue of
 // parse_non_constant_value and parse_type_annotation (from_control_flow / to_control_flow) and
-// their string / bool alternatives; parse_optional_description (description.rs); the payload
+// (all five value alternatives and both type alternatives are checked as blocks); the payload
 // types of the AST that are opaque stand-ins (string-key newtypes, directive sets, constant
 // values). Termination of the parser is not proved.
 use vstd::prelude::*;
@@ -876,13 +878,58 @@ pub fn leftover_tokens_diagnostic(location: Location) -> (r: Diagnostic) ensures
 pub fn expected_selection_set_diagnostic(location: Location) -> (r: Diagnostic) ensures r.loc() == Some(location) { unimplemented!() }
 #[verifier::external_body]
 pub fn expected_literal_to_be_exported_diagnostic(literal_type: &str, suggested_const_export_name: SelectableName, location: Location) -> (r: Diagnostic) ensures r.loc() == Some(location) { unimplemented!() }
-/// description.rs: `parse_single_line_description(tokens).or_else(|| parse_multiline_description(tokens))`
-/// (a closure capturing `tokens` mutably, string slicing): contract assumed
+// ---- description.rs: optional description in front of a selection set ----------------------
+#[derive(Clone, Copy)] pub struct DescriptionValue(pub StringKey);
+impl From<StringKey> for DescriptionValue { #[verifier::external_body] fn from(k: StringKey) -> Self { DescriptionValue(k) } }
+impl From<DescriptionValue> for Description { #[verifier::external_body] fn from(k: DescriptionValue) -> Self { unimplemented!() } }
+/// clean_block_string_literal (description.rs): cuts the `"""` off both ends with
+/// `&source[3..source.len() - 3]` and re-indents the lines (iterator code that cannot panic;
+/// not modelled). Its slicing precondition is what is carried here.
 #[verifier::external_body]
-pub fn parse_optional_description(tokens: &mut PeekableLexer<'_>) -> (r: Option<WithEmbeddedLocation<Description>>)
-    requires old(tokens).inv(),
-    ensures final(tokens).inv(), final(tokens).same_literal(old(tokens)), final(tokens).monotone(old(tokens)),
+pub fn clean_block_string_literal(source: &str) -> (r: String)
+    requires byte_len(source) >= 6, //@O C07.O-8_block_string_text_comes_with_both_triple_quotes
 { unimplemented!() }
+#[verifier::external_body]
+pub fn intern_string(s: String) -> StringKey { unimplemented!() }
+
+/// the slicing at the start of the real clean_block_string_literal: in range for every block
+/// string token (which comes with both `"""`)
+pub fn block_string_inner<'a>(source: &'a str) -> (r: &'a str)
+    requires byte_len(source) >= 6,
+    ensures byte_len(r) == byte_len(source) - 6, //@O C07.O-8_block_string_quotes_are_cut_inside_the_token
+{
+//@expr rel=crates/isograph_lang_parser/src/description.rs fn=clean_block_string_literal start="&source[3..source.len() - 3]" until=";" block=block_string_inner serves=C07 sub="&source\[3\.\.source\.len\(\) - 3\]=>str_slice(source, 3, str_len(source) - 3)"
+}
+//@fn rel=crates/isograph_lang_parser/src/description.rs name=parse_single_line_description vis=pub ret=r serves=C07
+//@rw R17
+//@sub "source_with_quotes\[1\.\.source_with_quotes\.len\(\) - 1\]\s*\.intern\(\)" => "intern_str(str_slice(source_with_quotes, 1, str_len(source_with_quotes) - 1))" n=1
+//@contract
+    requires old(tokens).inv(),
+    ensures final(tokens).inv(), final(tokens).same_literal(old(tokens)), final(tokens).monotone(old(tokens)), //@O C07.O-8_parse_single_line_description_preserves_cursor_invariant
+//@closure 1 params="parsed_str: WithEmbeddedLocation<&str>" ret="o: WithEmbeddedLocation<DescriptionValue>"
+            requires byte_len(parsed_str.item) >= 2,
+//@closure 2 params="source_with_quotes: &str" ret="v: DescriptionValue"
+            requires byte_len(source_with_quotes) >= 2, //@O C07.O-8_description_quotes_are_cut_inside_the_token
+//@end
+
+//@fn rel=crates/isograph_lang_parser/src/description.rs name=parse_multiline_description vis=pub ret=r serves=C07
+//@rw R17
+//@sub "clean_block_string_literal\(unparsed_text\)\.intern\(\)" => "intern_string(clean_block_string_literal(unparsed_text))" n=1
+//@contract
+    requires old(tokens).inv(),
+    ensures final(tokens).inv(), final(tokens).same_literal(old(tokens)), final(tokens).monotone(old(tokens)), //@O C07.O-8_parse_multiline_description_preserves_cursor_invariant
+//@closure 1 params="parsed_str: WithEmbeddedLocation<&str>" ret="o: WithEmbeddedLocation<DescriptionValue>"
+            requires byte_len(parsed_str.item) >= 6,
+//@closure 2 params="unparsed_text: &str" ret="v: DescriptionValue"
+            requires byte_len(unparsed_text) >= 6,
+//@end
+
+//@fn rel=crates/isograph_lang_parser/src/description.rs name=parse_optional_description vis=pub ret=r serves=C07
+//@rw R21
+//@contract
+    requires old(tokens).inv(),
+    ensures final(tokens).inv(), final(tokens).same_literal(old(tokens)), final(tokens).monotone(old(tokens)), //@O C07.O-8_parse_optional_description_preserves_cursor_invariant
+//@end
 //@item rel=crates/isograph_lang_types/src/declarations/entrypoint_declaration.rs kind=struct name=EntrypointDeclaration prefix="pub"
 //@item rel=crates/isograph_lang_types/src/declarations/client_selectable_declaration.rs kind=struct name=ClientFieldDeclaration prefix="pub"
 //@item rel=crates/isograph_lang_types/src/declarations/client_selectable_declaration.rs kind=struct name=ClientPointerDeclaration prefix="pub"
